@@ -13,12 +13,12 @@ Section Xform.
     Forall (fun a => a <= max_digest_alloc) (li_loop_allocs fuel o all pos doff dsize).
   Proof.
     induction fuel as [|f IH]; intros pos; cbn [li_loop_allocs]; [constructor|].
+    destruct (negb (dsize =? 0) && (dsize <=? pos - doff)); [constructor|].
     destruct (read_uv (drop pos all)) as [slen r n| | | |]; try constructor.
     destruct (slen =? 0); [constructor|]. apply Forall_app. split; [apply cfr_allocs_bound|].
     destruct (cid_from_reader (drop (pos + n) all)) as [cn c p rest| |]; try constructor.
     destruct (_ && (Transform.x_maxcid o <? cn)); [constructor|]. cbv zeta.
-    destruct (negb (Transform.seek_ok o (pos + n + slen))); [constructor|].
-    destruct (negb (dsize =? 0) && _); [constructor|apply IH].
+    destruct (negb (Transform.seek_ok o (pos + n + slen))); [constructor|apply IH].
   Qed.
 
   Theorem load_index_allocs_bound o all :
@@ -68,13 +68,14 @@ Section Xform.
     Transform.li_loop fuel o all pos doff dsize acc = Err e -> e <> EPanic.
   Proof.
     induction fuel as [|f IH]; intros pos acc e H; cbn [Transform.li_loop] in H; [inversion H; discriminate|].
+    destruct (negb (dsize =? 0) && (dsize <=? pos - doff)); [discriminate|].
     destruct (read_uv (drop pos all)) as [slen r n| | | |]; try (inversion H; discriminate).
     destruct (slen =? 0); [destruct (Transform.x_zeof o); inversion H; discriminate|].
     destruct (cid_from_reader (drop (pos + n) all)) as [cn c p rest| |]; try (inversion H; discriminate).
     cbv zeta in H.
     destruct (_ && (Transform.x_maxcid o <? cn)); [inversion H; discriminate|].
     destruct (negb (Transform.seek_ok o (pos + n + slen))); [inversion H; discriminate|].
-    destruct (negb (dsize =? 0) && _); [discriminate|]. eapply IH; eassumption.
+    eapply IH; eassumption.
   Qed.
 
   Lemma load_index_err_total o all e : Transform.load_index hdrdec o all = Err e -> err_total e.
